@@ -263,6 +263,9 @@ func (r *Run) Finish(rule string) {
 		cov["caps_hit"] = r.capsHit
 	}
 	sort.Strings(known)
+	if known == nil {
+		known = []string{}
+	}
 	cov["known_findings_reproduced"] = known
 	if len(missing) > 0 {
 		cov["open_findings_not_reproduced_in_this_run"] = missing
@@ -291,6 +294,9 @@ func (r *Run) Finish(rule string) {
 		fmt.Println(l)
 	}
 	os.Stdout.Sync()
+	if os.Getenv("VERIF_NOEXIT") != "" {
+		return // profiling runs only
+	}
 	if nviol > 0 {
 		os.Exit(1)
 	}
